@@ -55,6 +55,9 @@ type opGen struct {
 	rep bool
 	// no arguments at all (fields with required arguments are left out)
 	noargs bool
+	// composite fields an interface declares are selected on the interface-typed position AND again under some
+	// implementers, with equal sub-selections (fixture families only: the flag off draws nothing)
+	ihops bool
 }
 
 func cloneT(ts []*TSel) []*TSel {
@@ -70,7 +73,12 @@ func cloneT(ts []*TSel) []*TSel {
 // GenTemplate generates a valid query over the supergraph of cfg; argument values that select
 // entities are drawn from the universe.
 func GenTemplate(r *common.Rand, cfg *fedlab.Config, u *fedlab.Universe) *Template {
-	g := &opGen{r: r, cfg: cfg, u: u, max: 6 + r.Pick(18), seen: map[string][][]*TSel{}}
+	return GenTemplateX(r, cfg, u, false)
+}
+
+// GenTemplateX: ihops = see opGen.ihops.
+func GenTemplateX(r *common.Rand, cfg *fedlab.Config, u *fedlab.Universe, ihops bool) *Template {
+	g := &opGen{r: r, cfg: cfg, u: u, max: 6 + r.Pick(18), seen: map[string][][]*TSel{}, ihops: ihops}
 	if r.Chance(1, 4) {
 		g.max = 25 + r.Pick(30)
 	}
@@ -242,9 +250,41 @@ func (g *opGen) sels1(typ string, depth int, root bool) []*TSel {
 		// composite fields under one response key in sibling fragments are merged by the executor and
 		// must agree (same field, same arguments, same sub-selection): later fragments copy the first
 		prev := map[string]*TSel{}
+		// the same composite field of the interface on the interface itself and under implementers: the planner
+		// emits one fetch per occurrence for what lies below (unscoped / scoped by type name); equal ones are
+		// what de-duplication folds
+		var hops []*TSel
+		if g.ihops && td.Kind == fedlab.KInterface && depth > 0 {
+			for _, f := range td.Fields {
+				if g.cfg.Super.IsLeaf(f.Type.Base()) || hasRequiredArg(f) || !r.Chance(2, 3) {
+					continue
+				}
+				sub := g.sels(f.Type.Base(), depth-1, false)
+				if len(sub) == 0 {
+					continue
+				}
+				h := &TSel{Name: f.Name, Args: g.args(typ, f), Sels: sub}
+				if r.Chance(3, 4) {
+					add(h)
+				}
+				prev[f.Name] = h
+				hops = append(hops, h)
+			}
+		}
 		for _, pt := range g.cfg.Super.PossibleTypes(typ) {
 			if r.Chance(3, 4) {
 				sub := g.sels(pt, depth-1, false)
+				for _, h := range hops {
+					if r.Chance(1, 2) {
+						c := *h
+						c.Sels = cloneT(h.Sels)
+						if r.Chance(1, 2) {
+							sub = append(sub, &c)
+						} else {
+							sub = append([]*TSel{&c}, sub...)
+						}
+					}
+				}
 				var kept []*TSel
 				for _, x := range sub {
 					key := x.Alias
